@@ -87,6 +87,11 @@ add("impl", "unit", "int main(void) { goto l; }\n", "void f(void) { l: ; l: ; }\
     "enum { A = -0x7fffffffffffffff - 1, B = 0x8000000000000000 };\n", "char s[] = \"\udcff\";\n", "char s[] = \"\udcc0\udc80\";\n", "char s[] = \"\udced\udca0\udc80\";\n", "int c = L'\udcf0\udc9f';\n",
     "void f(int a) { switch (a) { case 4294967296: case 0: ; } }\n", "void f(int a) { switch (a) { case -1: case 4294967295: ; } }\n", "typedef int F(void); F f { }\n", "int f(void v) { return 0; }\n",
     "int x = __builtin_types_compatible_p(int, );\n", "int x = __builtin_offsetof(1, a);\n", "void f(void) { int a[*]; }\n", "char *s = \"\"^0;\n", "double d = 1.0 & 2;\n", "void f(struct hs2 { int a; } v) { v ? 1 : 2; }\n",
-    "int x = __builtin_alloca;\n", "_BitInt(3) x;\n", "int _BitInt = 1;\n", "#define F(x, y) x y\nint a = F(,,);\n", "int x = '\\08';\n")
+    "int x = __builtin_alloca;\n", "_BitInt(3) x;\n", "int _BitInt = 1;\n", "#define F(x, y) x y\nint a = F(,,);\n", "int x = '\\08';\n",
+    # NaN has no integer part: every comparison of the range check must fail safe
+    "int x = (int)(0.0/0.0);\n", "unsigned long u = (unsigned long)(0.0f/0.0f);\n", "long l = 0.0/0.0;\n", "enum { A = (int)(0.0/0.0) };\n",
+    "void f(int a) { switch (a) { case (int)(0.0/0.0): ; } }\n", "#define NAN_ (0.0/0.0)\nchar a[(unsigned)NAN_ + 1];\n", "unsigned char c = (unsigned char)-(0.0/0.0);\n",
+    "int x = (int)(__builtin_inff() - __builtin_inff());\n", "unsigned x = (unsigned)-1.0;\n", "unsigned long x = (unsigned long)0x1p64;\n", "long x = (long)0x1p63;\n",
+    "long x = (long)-0x1.0000000000001p63;\n")
 
 CATALOGUE = E
